@@ -687,6 +687,32 @@ func (env *cenv) call(e *CExpr) cval {
 		}
 		g.eventVars(ev)
 		return env.intv(g.get(env.cur, "G."+fnE.Name+"."+ev))
+	case "since":
+		// since(E, S): occurrences of event E after the last occurrence of event S (all of them if S never occurred);
+		// a quantity that spans calls: its value at entry is arbitrary (>= 0)
+		ev, sv := args[0].Name, args[1].Name
+		if _, ok := g.eng.DB.Events[ev]; !ok {
+			env.fail("unknown event %s", ev)
+		}
+		if _, ok := g.eng.DB.Events[sv]; !ok {
+			env.fail("unknown event %s", sv)
+		}
+		if !g.eng.sincePair(ev, sv) {
+			env.fail("since(%s, %s) is not registered (internal)", ev, sv)
+		}
+		g.eventVars(ev)
+		g.eventVars(sv)
+		sn := snapVar(ev, sv)
+		g.stateVar(sn, "Int")
+		cnt, snap := g.get(env.cur, "G.cnt."+ev), g.get(env.cur, sn)
+		if env.cur.formal == nil && !strings.Contains(snap, "|q.") {
+			key := "sincewf:" + cnt + snap
+			if !g.declared[key] {
+				g.declared[key] = true
+				g.emit(fmt.Sprintf("(assert (and (<= 0 %s) (<= %s %s)))", snap, snap, cnt)) // the snapshot is a past value of the counter
+			}
+		}
+		return env.intv(fmt.Sprintf("(- %s %s)", cnt, snap))
 	case "delta":
 		// delta(E): occurrences of event E during the call
 		ev := args[0].Name
